@@ -22,3 +22,8 @@ impl Default for MerkleHash {
 #[verifier::external_body] pub struct VxInfallible { _p: u8 }
 // R15: `anyhow!(..)` builds an opaque error value
 #[verifier::external_body] pub fn vx_anyhow() -> AnyhowError { unimplemented!() }
+// thiserror's `#[from] std::io::Error` on `CasObjectError::InternalIOError` generates this impl (used by `?`)
+impl From<IoError> for CasObjectError {
+    #[verifier::external_body]
+    fn from(e: IoError) -> (r: CasObjectError) { CasObjectError::InternalIOError(e) }
+}
